@@ -70,6 +70,7 @@ type sTab struct { // reference into a package-level table
 	ptr  bool  // pointer to the node rather than the node value
 }
 type sPTable struct{ forms []pform } // result of TransformPrecomputed
+type sStruct struct{ f []sVal }      // struct value (copied on load/store)
 
 type pform map[string]*big.Int // "atom|base" -> coefficient
 
@@ -88,6 +89,7 @@ type sState struct {
 	ghost pform            // weighted sum of the digits stored into the observed output array (sum val * 2^index)
 	ghostNext int          // smallest index at which the next non-zero digit may be stored (spacing rule)
 	bnd   map[string][2]*big.Rat // bounds learned from branches on a linear form (keyed by its non-constant part)
+	exps  map[int]pform          // exponent forms of field-element limb arrays (addition-chain evaluation)
 }
 
 func (s *sState) clone() *sState {
@@ -110,6 +112,12 @@ func (s *sState) clone() *sState {
 	}
 	for k := range s.ones {
 		n.ones[k] = true
+	}
+	if s.exps != nil {
+		n.exps = make(map[int]pform, len(s.exps))
+		for k, v := range s.exps {
+			n.exps[k] = v
+		}
 	}
 	if s.bnd != nil {
 		n.bnd = make(map[string][2]*big.Rat, len(s.bnd))
@@ -300,6 +308,8 @@ type sched struct {
 	frames  []*ssa.Function // functions being interpreted (innermost last)
 	ghostArr int            // heap id of the observed output array (0: none)
 	ghostW   int            // window width for the digit rules
+	expOps   int            // field multiplications and squarings followed (addition-chain evaluation)
+	expMode  bool           // summarise the Fiat Mul/Square primitives in the exponent domain
 	digitProblems []string
 	digitStores   int
 	dbgN          int
@@ -755,6 +765,15 @@ func (e *sched) binop(st *sState, x *ssa.BinOp) sVal {
 	if as == nil || bs == nil {
 		return sOpaque{"binop on " + fmt.Sprintf("%T,%T", a, b)}
 	}
+	// a bit operation on a linear form that depends on a single unknown bit: evaluate both cases and interpolate
+	switch x.Op {
+	case token.AND, token.OR, token.XOR, token.AND_NOT, token.SHL, token.SHR, token.REM, token.QUO:
+		if (as.bits == nil && len(as.lin) > 0) || (bs.bits == nil && len(bs.lin) > 0) {
+			if r := e.interpolate1(st, x, as, bs); r != nil {
+				return r
+			}
+		}
+	}
 	bc, bconst := constOf(b)
 	ac, aconst := constOf(a)
 	switch x.Op {
@@ -809,7 +828,7 @@ func (e *sched) binop(st *sState, x *ssa.BinOp) sVal {
 			return symFromBits(nb)
 		}
 		return sOpaque{"shift of a value without bit structure"}
-	case token.AND, token.OR, token.XOR:
+	case token.AND, token.OR, token.XOR, token.AND_NOT:
 		if as.bits == nil || bs.bits == nil {
 			return sOpaque{"bit operation on a value without bit structure"}
 		}
@@ -864,6 +883,15 @@ func (e *sched) binop(st *sState, x *ssa.BinOp) sVal {
 				default:
 					return sOpaque{"XOR of symbolic bits"}
 				}
+			case token.AND_NOT:
+				switch {
+				case p == "" || q == "1" || p == q:
+					nb[i] = ""
+				case q == "":
+					nb[i] = p
+				default:
+					return sOpaque{"AND NOT of symbolic bits"}
+				}
 			}
 		}
 		return symFromBits(nb)
@@ -904,6 +932,79 @@ func wordOp(op token.Token, w sWord, c *big.Int, t types.Type) sVal {
 		}
 	}
 	return sOpaque{"table word combined with a partial mask"}
+}
+
+// interpolate1: both operands are affine in at most one common free bit atom (all other atoms have known values):
+// compute the operation for atom = 0 and atom = 1 and return c0 + (c1-c0)*atom.
+func (e *sched) interpolate1(st *sState, x *ssa.BinOp, as, bs *sSym) sVal {
+	free := ""
+	for _, sy := range []*sSym{as, bs} {
+		for a := range sy.lin {
+			if a == "" || st.zeros[a] || st.ones[a] {
+				continue
+			}
+			if isDigitAtom(a) || strings.HasPrefix(a, "len(") {
+				return nil
+			}
+			if free != "" && free != a {
+				return nil
+			}
+			free = a
+		}
+	}
+	evalAt := func(sy *sSym, v int64) (*big.Int, bool) {
+		sum := new(big.Rat)
+		for a, c := range sy.lin {
+			switch {
+			case a == "":
+				sum.Add(sum, c)
+			case st.zeros[a]:
+			case st.ones[a]:
+				sum.Add(sum, c)
+			case a == free:
+				sum.Add(sum, new(big.Rat).Mul(c, big.NewRat(v, 1)))
+			}
+		}
+		if !sum.IsInt() {
+			return nil, false
+		}
+		return new(big.Int).Set(sum.Num()), true
+	}
+	var res [2]*big.Int
+	for v := int64(0); v < 2; v++ {
+		av, ok1 := evalAt(as, v)
+		bv, ok2 := evalAt(bs, v)
+		if !ok1 || !ok2 {
+			return nil
+		}
+		r, ok := e.concreteBin(x, av, bv).(sInt)
+		if !ok {
+			return nil
+		}
+		res[v] = r.v
+		if free == "" {
+			return sInt{r.v}
+		}
+	}
+	d := new(big.Int).Sub(res[1], res[0])
+	l := map[string]*big.Rat{}
+	if res[0].Sign() != 0 {
+		l[""] = new(big.Rat).SetInt(res[0])
+	}
+	if d.Sign() != 0 {
+		l[free] = new(big.Rat).SetInt(d)
+	}
+	out := symLin(l)
+	// keep a bit representation when the result is the bit itself
+	if res[0].Sign() == 0 && d.Cmp(big.NewInt(1)) == 0 {
+		w, _ := typeBits(x.Type())
+		if w > 0 {
+			bits := make([]string, w)
+			bits[0] = free
+			return symFromBits(bits)
+		}
+	}
+	return out
 }
 
 // evenForm: a form a*d + c over digit atoms (odd or zero...) - only used after d != 0 is known; digits are odd by the
